@@ -271,7 +271,7 @@ pub fn check_generic(scn: &Scenario) -> Result<CaseInfo, String> {
     Ok(CaseInfo { nontrivial: nt, classes: info.classes })
 }
 
-pub const RULE: &str = "permute = C01-C04-style scenario x random clause permutation that keeps each unordered method's clause order and the relative order of ordered clauses; route = scenario run through the original only vs every call routed through one of 1-4 instances; twin = two mocks from the same clauses with two interleaved histories vs each history on a solo mock; generic = model-diff over two instantiations each of a generic trait and a generic method with overlapping patterns. Non-trivial = non-identity permutation over >= 2 methods / >= 2 instances used / >= 2 switches between the twins / both instantiations mentioned with overlapping masks and called; distinct = distinct case";
+pub const RULE: &str = "permute = C01-C04-style scenario x random clause permutation that keeps each unordered method's clause order and the relative order of ordered clauses; route = scenario run through the original only vs every call routed through one of 1-4 instances; twin = two mocks from the same clauses with two interleaved histories vs each history on a solo mock; generic = model-diff over two instantiations each of a generic trait and a generic method with overlapping patterns. Non-trivial = non-identity permutation over >= 2 methods / >= 2 instances used / >= 2 switches between the twins / both instantiations mentioned with overlapping masks and called; distinct = distinct case. racing-* = every schedule of 2-3 threads x 1-2 calls (sampled up to 4x3) routed through clones / one shared handle / the creator thread on an ordered sequence of several clauses and on ordered + unordered clauses mixed: outcomes and verdict equal the sequential run (C10's scheduler)";
 
 pub fn run(ctx: &Ctx) -> Verdict {
     let mut v = Verdict::new("exploration", RULE);
@@ -306,6 +306,15 @@ pub fn run(ctx: &Ctx) -> Verdict {
     v.subs.push(vcore::run_proptest(ctx, "twin", n, twin, check_twin));
     v.subs
         .push(vcore::run_proptest(ctx, "generic", n, gen::scenario(generic_cfg()), check_generic));
+    // routing calls through clones on several threads: every schedule of 2-3 threads on an ordered sequence
+    // made of several clauses, and on ordered + unordered clauses mixed (C10's scheduler; the outcome of the
+    // calls and the verdict must be those of the sequential run, whichever instance a call goes through)
+    #[cfg(feature = "std")]
+    for mut s in super::c10::run_kinds(ctx, &[(2, 1), (2, 2), (3, 1)], &[super::c10::Kind::Ordered, super::c10::Kind::Mixed]) {
+        let renamed = format!("racing-{}", s.name);
+        s.rename(renamed);
+        v.subs.push(s);
+    }
     v.subs.extend(super::variant_reports(ctx, &["nostd-spin"]));
     v
 }
@@ -313,6 +322,9 @@ pub fn run(ctx: &Ctx) -> Verdict {
 pub fn replay(sub: &str, case: Value) -> Result<(), String> {
     fn de<T: serde::de::DeserializeOwned>(v: Value) -> Result<T, String> {
         serde_json::from_value(v).map_err(|e| format!("HARNESS: bad case: {e}"))
+    }
+    if sub.starts_with("racing") {
+        return super::c10::replay(sub, case);
     }
     match sub {
         "permute" => check_perm(&de(case)?).map(|_| ()),
